@@ -282,6 +282,40 @@ pub fn plan(prop: &str) -> Vec<Item> {
         }
         _ => {}
     }
+    // spurious wake-ups (`spur`=1): one `thread::park` or `Condvar::wait` call of the subject may return although nobody
+    // woke it (std allows both), at any explored moment; a spurious return costs one deviation like a preemption does
+    {
+        let picks: &[&str] = match prop {
+            "C04" => &["sync_states", "f3_sync_sync", "sync_wipe"],
+            "C06" => &["wake_ctx"],
+            "C07" => &["fd_result", "fd_two"],
+            "C13" => &["suspend"],
+            "C08" => &["fs_nested"],
+            "C05" => &["drop_obj"],
+            "C03" => &["f2_dormant_race", "try_paths"],
+            _ => &[],
+        };
+        let mut extra = vec![];
+        for i in plan_base(prop) {
+            if !picks.contains(&i.scenario) || i.cfg.opt("pool", 0) > 1 || i.cfg.opt("inl", 0) != 0 {
+                continue;
+            }
+            // only instances in which some thread of the subject parks or waits: a sync caller, a drain inside sync, .sync()
+            let waits = match i.scenario {
+                "wake_ctx" => i.cfg.opt("ctx", 0) == 1,
+                "fd_result" => matches!(i.cfg.opt("mode", 0), 1 | 3 | 6),
+                "fd_two" => i.cfg.opt("pool", 0) == 0,
+                _ => true,
+            };
+            if !waits {
+                continue;
+            }
+            let mut j = it(i.scenario, &format!("{},spur=1", i.cfg.to_string()), i.quick.map(|b| b.min(2)), i.thorough.min(3));
+            j.small = i.small;
+            extra.push(j);
+        }
+        v.extend(extra);
+    }
     v
 }
 
